@@ -114,6 +114,13 @@ func lifeMain(p LifeParams) {
 			lastTrack = len(ts)
 		}
 		if want("tuple") && got.seq != 0 {
+			if P.uuid == uuid && got.uuid != uuid && got.seq < P.seq {
+				// the furthest settled event was delivered on the branch the current stream is open on, so the
+				// tracked offset names that branch: a late acknowledgement of an old-branch event with a LOWER
+				// sequence number must not replace it. (An old-branch event with the SAME sequence number does
+				// replace it in the tree - the guard is "greater than" - which is left open, see DESIGN section 7.)
+				fail("%s: tracked offset %v names branch %d; the stream is open on branch %d and the furthest settled event %v was delivered on it", when, got, got.uuid, uuid, P)
+			}
 			if !handed[got] {
 				fail("%s: tracked offset %v is not the offset of any single delivered event (mixture)", when, got)
 			} else if got.seq == P.seq && !settled[got] {
